@@ -807,6 +807,60 @@ fn is_math_function(name: &str) -> bool {
     )
 }
 
+/// The rest of a unicode range (`+` hex digits or `?`, optionally `-` hex digits) right after its `U`,
+/// consumed from the input; the tokenizer would read it as numbers, dimensions and identifiers.
+fn take_unicode_range_tail<'i>(input: &mut StepParser<'i, '_, '_>) -> Option<&'i str> {
+    let start = input.state();
+    let start_pos = start.position();
+    let mut accepted = input.state();
+    loop {
+        let before = input.state();
+        let in_range = match input.next_including_whitespace() {
+            Ok(next) => matches!(
+                &*next,
+                Token::Number { .. } | Token::Dimension { .. } | Token::Ident(_) | Token::Delim('?')
+            ),
+            Err(_) => false,
+        };
+        if !in_range {
+            input.reset(&before);
+            break;
+        }
+        let text = input.slice_from(start_pos);
+        if !text
+            .bytes()
+            .all(|c| c.is_ascii_hexdigit() || c == b'+' || c == b'-' || c == b'?')
+        {
+            input.reset(&before);
+            break;
+        }
+        accepted = input.state();
+    }
+    input.reset(&accepted);
+    let text = input.slice_from(start_pos);
+    let valid = text.strip_prefix('+').is_some_and(|rest| {
+        let (first, second) = match rest.split_once('-') {
+            Some((a, b)) => (a, Some(b)),
+            None => (rest, None),
+        };
+        let hex = |s: &str, wildcard: bool| {
+            (1..=6).contains(&s.len())
+                && s.bytes().all(|c| c.is_ascii_hexdigit() || (wildcard && c == b'?'))
+                && s.trim_end_matches('?').bytes().all(|c| c != b'?')
+        };
+        match second {
+            Some(second) => hex(first, false) && hex(second, false),
+            None => hex(first, true),
+        }
+    });
+    if valid {
+        Some(text)
+    } else {
+        input.reset(&start);
+        None
+    }
+}
+
 fn convert_rpx_in_block(
     input: &mut StepParser,
     ss: &mut StyleSheetTransformer,
@@ -890,6 +944,15 @@ fn convert_rpx_in_block(
                         if !skip {
                             let st = StepToken::wrap(Token::WhiteSpace(" "), next.position);
                             ss.append_token(st, input, None);
+                        }
+                    }
+                    Token::Ident(x) if x.eq_ignore_ascii_case("u") => {
+                        // `U+4??`, `U+0-7F`: a unicode range is not a sequence of numbers
+                        let tail_position = input.position();
+                        let tail = take_unicode_range_tail(input);
+                        ss.append_token(next.clone(), input, None);
+                        if let Some(tail) = tail {
+                            ss.current_output_mut().append_verbatim(tail, tail_position);
                         }
                     }
                     _ => {
